@@ -20,6 +20,7 @@ CONSTANTS
   RLen = 3
   VecTypes = {"b", "i", "d", "l"}
   VecLen = 1
+  SinkTypes = {"n", "q", "i", "x"} SinkCaps = {3, 5} SinkLefts = {4, 12, 64}
   Ks = {7, 15, 31, 63, 64}
   FltDesign = FALSE
 INVARIANTS XDesignSound XDigitsSound XPrintedSound
